@@ -24,7 +24,7 @@ STUBS = ["np proxy", "SymArray", "np.bincount model", "np.random.choice -> exhau
 
 def bounds_text(tier):
     if tier == "quick":
-        return "n=3 all knowledge sets x every size; n=4 64 seeded knowledge sets x every size x every candidate"
+        return "n=3 all knowledge sets x every size; n=4 64 seeded knowledge sets x every size x every candidate; consecutive linear steps without mask queries (all size pairs, n=3,4)"
     return "n=3 complete; n=4 all 1024 knowledge sets x every size x every candidate"
 
 
